@@ -212,7 +212,11 @@ type c05File struct {
 	multi   bool            // set while checking: the file has several row groups
 	skip    map[string]bool // columns written with SkipPageBounds
 	copyToo bool            // also copy the file with WriteRowGroup and check the copy
+	copied  bool            // set while checking the WriteRowGroup copy of the file
 }
+
+// recordSample: the whole-record mirror (c05.record) is asked for one file in four (and on replays)
+func (f *c05File) recordSample() bool { return f.only != "" || (len(f.rows)+f.lim)%4 == 0 }
 
 func (f *c05File) colText(ci int) string {
 	k := c05KindByName(c05Cols[ci].kind)
@@ -610,7 +614,7 @@ func c05CheckFile(ctx *core.Ctx, b *c05Batch, f *c05File, c05 bool, sample bool)
 		ctx.Fail("L1", "writer-panic", fmt.Sprint(pan), base)
 		return
 	}
-	c05CheckData(ctx, b, f, data, c05, base)
+	src := c05CheckData(ctx, b, f, data, c05, base)
 	if c05 && f.copyToo && f.only == "" {
 		// statistics copied by the verbatim row-group copy path must still describe the copied pages
 		cp, copied, pan := f.copy(data)
@@ -628,13 +632,17 @@ func c05CheckFile(ctx *core.Ctx, b *c05Batch, f *c05File, c05 bool, sample bool)
 		} else {
 			ctx.Hist("copied-file", "re-encoded")
 		}
-		c05CheckData(ctx, b, f, cp, c05, cbase)
+		f.copied = true
+		dst := c05CheckData(ctx, b, f, cp, c05, cbase)
+		f.copied = false
+		if copied == 0 && src != nil && dst != nil {
+			c05CompareReencoded(ctx, f, src, dst, cbase)
+		}
 	}
 }
 
 // c05CheckData checks one file image (as written, or as copied) against the values read back from it.
-func c05CheckData(ctx *core.Ctx, b *c05Batch, f *c05File, data []byte, c05 bool, base map[string]any) {
-	var pf *parquet.File
+func c05CheckData(ctx *core.Ctx, b *c05Batch, f *c05File, data []byte, c05 bool, base map[string]any) (pf *parquet.File) {
 	if p := c05Recover(func() {
 		var err error
 		pf, err = parquet.OpenFile(bytes.NewReader(data), int64(len(data)))
@@ -643,12 +651,12 @@ func c05CheckData(ctx *core.Ctx, b *c05Batch, f *c05File, data []byte, c05 bool,
 		}
 	}); p != nil {
 		ctx.Fail("L1", "open-file-failed", fmt.Sprint(p), base)
-		return
+		return nil
 	}
 	rgs := pf.RowGroups()
 	if f.maxRows == 0 && len(rgs) != 1 {
 		ctx.Fail("L1", "unexpected-row-groups", fmt.Sprintf("%d row groups", len(rgs)), base)
-		return
+		return pf
 	}
 	ctx.Hist("file-row-groups", c05Bucket(len(rgs)))
 	f.multi = len(rgs) > 1
@@ -704,6 +712,66 @@ func c05CheckData(ctx *core.Ctx, b *c05Batch, f *c05File, data []byte, c05 bool,
 	}
 	if rowsSeen != total {
 		ctx.Fail("L1", "row-groups-lose-rows", fmt.Sprintf("%d rows written, %d rows in %d row groups", total, rowsSeen, len(rgs)), base)
+	}
+	return pf
+}
+
+// c05CompareReencoded: a RE-ENCODED copy (WriteRowGroup that could not splice the chunk) recomputes every
+// statistic from the values it reads back. Model (`reencode_sound`): the new record depends on the value
+// sequence only, so per chunk the counts equal the source's and the chunk min/max are equal in the
+// column's order (both are attained bounds of the same values), whatever pages the copy cut.
+func c05CompareReencoded(ctx *core.Ctx, f *c05File, src, dst *parquet.File, base map[string]any) {
+	a, c := src.Metadata().RowGroups, dst.Metadata().RowGroups
+	if len(a) != len(c) {
+		ctx.Hist("reencoded-row-groups", "regrouped")
+		return
+	}
+	ctx.Hist("reencoded-row-groups", "aligned")
+	for g := range a {
+		if a[g].NumRows != c[g].NumRows || len(a[g].Columns) != len(c[g].Columns) || len(a[g].Columns) != len(c05Cols) {
+			return
+		}
+		for ci, col := range c05Cols {
+			if f.skip[col.name] {
+				continue
+			}
+			k := *c05KindByName(col.kind)
+			k.typ = src.RowGroups()[g].ColumnChunks()[ci].Type()
+			ma, mc := &a[g].Columns[ci].MetaData, &c[g].Columns[ci].MetaData
+			detail := func(extra map[string]any) map[string]any {
+				m := map[string]any{"op": "file", "column": col.name, "kind": col.kind, "pages": f.colText(ci), "row_group": g}
+				for kk, v := range base {
+					m[kk] = v
+				}
+				for kk, v := range extra {
+					m[kk] = v
+				}
+				return m
+			}
+			if ma.NumValues != mc.NumValues || ma.Statistics.NullCount != mc.Statistics.NullCount {
+				ctx.Fail("L1", "reencoded-counts-differ "+col.kind, fmt.Sprintf("source chunk: num_values=%d null_count=%d, re-encoded copy: num_values=%d null_count=%d", ma.NumValues, ma.Statistics.NullCount, mc.NumValues, mc.Statistics.NullCount), detail(nil))
+				continue
+			}
+			hasValues := ma.NumValues > ma.Statistics.NullCount
+			sa, oka := c05DecodeStats(&k, &ma.Statistics, hasValues)
+			sc, okc := c05DecodeStats(&k, &mc.Statistics, hasValues)
+			if !oka || !okc || !sa.has || !sc.has {
+				if oka && okc && sa.has != sc.has {
+					ctx.Fail("L2", "reencoded-stats-differ "+col.kind, "one of the source chunk and its re-encoded copy has min/max, the other has none", detail(nil))
+				}
+				continue
+			}
+			if k.isNaN(sa.min) || k.isNaN(sc.min) || k.isNaN(sa.max) || k.isNaN(sc.max) {
+				if (k.isNaN(sa.min) != k.isNaN(sc.min)) || (k.isNaN(sa.max) != k.isNaN(sc.max)) {
+					ctx.Fail("L2", "reencoded-stats-differ "+col.kind, "NaN chunk bound in only one of the source chunk and its re-encoded copy", detail(map[string]any{"source": k.text(sa.min) + ":" + k.text(sa.max), "copy": k.text(sc.min) + ":" + k.text(sc.max)}))
+				}
+				continue
+			}
+			if k.cmp(sa.min, sc.min) != 0 || k.cmp(sa.max, sc.max) != 0 {
+				ctx.Fail("L2", "reencoded-stats-differ "+col.kind, "chunk min/max of a re-encoded copy differ (in the column's order) from the source chunk's, although both describe the same values", detail(map[string]any{"source": k.text(sa.min) + ":" + k.text(sa.max), "copy": k.text(sc.min) + ":" + k.text(sc.max)}))
+			}
+			ctx.Hist("reencoded-chunk-compared", col.kind)
+		}
 	}
 }
 
@@ -1147,6 +1215,49 @@ func c05CheckChunk(ctx *core.Ctx, b *c05Batch, k *c05Kind, col c05Col, f *c05Fil
 		b.ask("c05.fold "+k.drv+" "+c05PagesText(k, pageBounds), func(ans string) {
 			if ans != got {
 				ctx.Fail("L2", "chunk-fold-mirror "+col.kind, "chunk statistics differ from the Lean mirror of the recordPageStats fold over the page bounds", detail(map[string]any{"impl": got, "model": ans, "page_bounds": c05PagesText(k, pageBounds)}))
+			}
+		})
+	}
+	// L2: the whole record of the chunk (`writerRecord`, the object of `writerRecord_sound` /
+	// `reencode_sound`): exact page bounds, per-page null counts, chunk min/max and chunk null count from
+	// the values read back, in one model evaluation — every chunk of a copied file, a sample of the others
+	if k.drv != "" && pageBounds != nil && len(pageBounds) == len(pages) && !skipped && len(pages) > 0 && (f.copied || f.recordSample()) {
+		var sb strings.Builder
+		nulls := make([]string, len(pages))
+		for i, p := range pages {
+			if i > 0 {
+				sb.WriteByte(';')
+			}
+			first := true
+			for j := 0; j < p.nulls; j++ {
+				if !first {
+					sb.WriteByte(',')
+				}
+				sb.WriteByte('n')
+				first = false
+			}
+			for _, v := range p.vals {
+				if !first {
+					sb.WriteByte(',')
+				}
+				sb.WriteString(k.text(v))
+				first = false
+			}
+			if first {
+				sb.WriteByte('-')
+			}
+			nulls[i] = fmt.Sprint(p.nulls)
+		}
+		chunk := "none"
+		if s.has {
+			chunk = k.text(s.min) + ":" + k.text(s.max)
+		}
+		got := fmt.Sprintf("ok %s %s %s %d", c05PagesText(k, pageBounds), strings.Join(nulls, ","), chunk, s.nulls)
+		pagesText := sb.String()
+		ctx.Hist("record-mirror-asked", col.kind)
+		b.ask("c05.record "+k.drv+" "+pagesText, func(ans string) {
+			if ans != got {
+				ctx.Fail("L2", "chunk-record-mirror "+col.kind, "page bounds, null counts and chunk statistics of the chunk differ from the Lean mirror of the writer's record over the values read back", detail(map[string]any{"impl": got, "model": ans, "values_read": pagesText, "build": ctx.Variant}))
 			}
 		})
 	}
